@@ -59,6 +59,10 @@ class Violation(Exception):
         self.detail = detail
 
 
+class Abort(Exception):
+    """Stands for FailStep / SwitchPhase / Raise / a failing user function: cuts the step short."""
+
+
 class Target:
     def __init__(self, ctl, phase, guards, script, deps, closure):
         self.ctl = ctl
@@ -72,6 +76,7 @@ class Target:
         self.pending_req = None     # set of ids that must come first
         self.states = set()
         self.current = None
+        self.abort_at = None
 
     def _check_sets(self, where):
         c = self.ctl
@@ -110,6 +115,8 @@ class Target:
         if ("x%s" % sid) in self.trace:
             raise Violation("exec-iff-guard", "%s executed twice" % sid)
         self.trace.append("x%s" % sid)
+        if self.abort_at == sid:
+            raise Abort()
         req = self.script.get(sid)
         if req is None:
             return None
@@ -168,7 +175,7 @@ def is_acyclic(n, edges):
     return all(visit(i) for i in range(n))
 
 
-def run_case(n, edges, root_order, dep_orders, guards, script, second_step=True):
+def run_case(n, edges, root_order, dep_orders, guards, script, second_step=True, abort=None):
     """One execution on the real controller. Returns (violation or None, info)."""
     from dagrt.language import ExecutionController, ExecutionPhase
     deps, clo = closure_of(n, edges)
@@ -184,6 +191,8 @@ def run_case(n, edges, root_order, dep_orders, guards, script, second_step=True)
     try:
         for step in range(2 if second_step else 1):
             tgt = Target(ctl, phase, g, sc, depsn, clon)
+            if abort is not None and step == 0:
+                tgt.abort_at = ids[abort]
             try:
                 ctl.reset()
                 ctl.update_plan(phase, [ids[i] for i in root_order])
@@ -191,6 +200,10 @@ def run_case(n, edges, root_order, dep_orders, guards, script, second_step=True)
                 for _ in ctl(phase, tgt):
                     pass
                 tgt._check_sets("at end of step")
+            except Abort:
+                info["transitions"] += len(tgt.visited)
+                info["states"] |= tgt.states
+                continue        # step cut short: the next step must be a complete, fresh one
             except Violation as v:
                 return (v.sub, "step %d: %s" % (step, v.detail)), info
             info["states"] |= tgt.states
@@ -293,7 +306,8 @@ def sig_of(sub, w):
         for i in range(n):
             guards[perm[i]] = w["guards"][i]
         script = sorted((perm[int(k)], [perm[r] for r in v]) for k, v in w["script"].items())
-        key = json.dumps([edges, roots, dord, guards, script])
+        ab = None if w.get("abort") is None else perm[w["abort"]]
+        key = json.dumps([edges, roots, dord, guards, script] + ([["abort", ab]] if ab is not None else []))
         if best is None or key < best:
             best = key
     return "C04/%s:n=%d %s" % (sub, n, best)
@@ -301,8 +315,7 @@ def sig_of(sub, w):
 
 def shrink(w, sub):
     def fails(x):
-        r, _ = run_case(x["n"], [tuple(e) for e in x["edges"]], x["root_order"], x["dep_orders"],
-                        x["guards"], {int(k): v for k, v in x["script"].items()})
+        r, _ = run_w(x)
         return r is not None and r[0] == sub
 
     def cands(x):
@@ -316,7 +329,7 @@ def shrink(w, sub):
                     yield dict(x, script=dict(x["script"], **{k: [keep]}))
         # remove a node
         for v in range(n):
-            if any(int(k) == v or v in r for k, r in x["script"].items()) and n <= 1:
+            if x.get("abort") == v:
                 continue
             ren = {i: (i if i < v else i - 1) for i in range(n) if i != v}
             if any(int(k) == v or v in r for k, r in x["script"].items()):
@@ -329,7 +342,8 @@ def shrink(w, sub):
             old = [ren[i] for i in x["root_order"] if i != v]
             root_order = [i for i in old if i in roots_set] + [i for i in roots_set if i not in old]
             yield {"n": n - 1, "edges": edges, "root_order": root_order, "dep_orders": dord,
-                   "guards": guards, "script": script}
+                   "guards": guards, "script": script,
+                   "abort": None if x.get("abort") is None else ren[x["abort"]]}
         # remove an edge
         for e in x["edges"]:
             edges = [f for f in x["edges"] if f != e]
@@ -354,17 +368,21 @@ def shrink(w, sub):
             return cur
 
 
-def make_witness(n, edges, root_order, dep_orders, guards, script):
+def make_witness(n, edges, root_order, dep_orders, guards, script, abort=None):
     return {"n": n, "edges": [list(e) for e in edges], "root_order": list(root_order),
             "dep_orders": [list(d) for d in dep_orders], "guards": list(guards),
-            "script": {str(k): list(v) for k, v in script.items()}}
+            "script": {str(k): list(v) for k, v in script.items()}, "abort": abort}
+
+
+def run_w(x):
+    return run_case(x["n"], [tuple(e) for e in x["edges"]], x["root_order"], x["dep_orders"],
+                    x["guards"], {int(k): v for k, v in x["script"].items()}, abort=x.get("abort"))
 
 
 def record(acc, sub, detail, w):
     if acc.want_violation(sub):
         s = shrink(w, sub)
-        r, _ = run_case(s["n"], [tuple(e) for e in s["edges"]], s["root_order"], s["dep_orders"],
-                        s["guards"], {int(k): v for k, v in s["script"].items()})
+        r, _ = run_w(s)
         acc.violation(sub, sig_of(sub, s), s, "%s\nwitness: %s" % (r[1] if r else detail, json.dumps(s)))
     else:
         acc.count_violation(sub)
@@ -402,6 +420,18 @@ def run_shard(desc, acc):
                         scripts = [{}]
                 else:
                     scripts = scripts_for(n, guards, d)
+                if mode == "full":
+                    # steps cut short at every possible point, followed by a complete step
+                    for ab in range(n):
+                        if not guards[ab]:
+                            continue
+                        acc.evaluations += 1
+                        r, info = run_case(n, edges, root_order, dep_orders, guards, {}, abort=ab)
+                        acc.transitions += info["transitions"]
+                        acc.traces += 1
+                        acc.nontrivial += 1
+                        if r is not None:
+                            record(acc, r[0], r[1], make_witness(n, edges, root_order, dep_orders, guards, {}, ab))
                 for script in scripts:
                     acc.evaluations += 1
                     r, info = run_case(n, edges, root_order, dep_orders, guards, script)
@@ -444,19 +474,35 @@ def run_interp_binding(desc, acc):
                 stmts = [Assign(id="s%d" % i, assignee="x%d" % i, assignee_subscript=(), expression=i,
                                 condition=guards[i], depends_on=["s%d" % j for j in deps[i]])
                          for i in range(n)]
+                if n >= 2 and all(guards):
+                    # one no-op statement in the last position (statement kind without a guard)
+                    from dagrt.language import Nop
+                    stmts[-1] = Nop(id="s%d" % (n - 1), depends_on=["s%d" % j for j in deps[n - 1]])
                 dag = DAGCode({"ph": ExecutionPhase("ph", "ph", stmts)}, "ph")
                 it = Rec(dag, {})
                 it.set_up(t_start=0, dt_start=1, context={})
                 acc.evaluations += 1
                 for step in range(2):
                     it.rec = []
-                    list(it.run_single_step())
+                    try:
+                        list(it.run_single_step())
+                    except Exception as e:
+                        roots = [i for i in range(n) if not any(b == i for _, b in edges)]
+                        w = make_witness(n, edges, roots, [deps[i] for i in range(n)], guards, {})
+                        w["via"] = "interpreter"
+                        w["kinds"] = [type(st).__name__ for st in stmts]
+                        sub = "exception(%s)" % type(e).__name__
+                        acc.violation(sub + "(interpreter)", "C04/%s(interpreter):kinds=%s" % (
+                            sub, sorted(set(w["kinds"]))), w, "run_single_step raised %s: %s on a well-formed "
+                            "phase with statement kinds %s" % (type(e).__name__, e, w["kinds"]))
+                        break
                     cs = [t[1:] for t in it.rec if t[0] == "c"]
                     xs = [t[1:] for t in it.rec if t[0] == "x"]
                     sub = None
+                    is_nop = [type(st).__name__ == "Nop" for st in stmts]
                     if sorted(cs) != ["s%d" % i for i in range(n)]:
                         sub, det = "visit-once", "interpreter step %d visited %s" % (step, cs)
-                    elif sorted(xs) != ["s%d" % i for i in range(n) if guards[i]]:
+                    elif sorted(xs) != ["s%d" % i for i in range(n) if guards[i] and not is_nop[i]]:
                         sub, det = "exec-iff-guard", "interpreter executed %s, guards %s" % (xs, guards)
                     else:
                         pos = {s: k for k, s in enumerate(cs)}
@@ -489,12 +535,10 @@ def replay(witness):
         finally:
             _DAGS = saved
         return acc.violations
-    r, _ = run_case(w["n"], [tuple(e) for e in w["edges"]], w["root_order"], w["dep_orders"],
-                    w["guards"], {int(k): v for k, v in w["script"].items()})
+    r, _ = run_w(w)
     if r is None:
         return []
     s = shrink(w, r[0])
-    r2, _ = run_case(s["n"], [tuple(e) for e in s["edges"]], s["root_order"], s["dep_orders"],
-                     s["guards"], {int(k): v for k, v in s["script"].items()})
+    r2, _ = run_w(s)
     return [{"sub": r[0], "sig": sig_of(r[0], s), "witness": s,
              "detail": "%s\nwitness: %s" % (r2[1] if r2 else r[1], json.dumps(s))}]
